@@ -308,6 +308,12 @@ class Spec:
 
 # ------------------------------------------------------------------------------------------------
 def run_batch(tr, wd, kernels, tag, modes=MODES, known_filter=None, excl=None, spec=None):
+    if spec is not None and hasattr(spec, "custom_batch"):
+        return spec.custom_batch(tr, wd, kernels, tag, modes, known_filter, excl if excl is not None else {})
+    return _run_batch(tr, wd, kernels, tag, modes, known_filter, excl, spec)
+
+
+def _run_batch(tr, wd, kernels, tag, modes=MODES, known_filter=None, excl=None, spec=None):
     """translate + build + run a list of Kernel objects for all modes.  Returns list of failure dicts."""
     excl = excl if excl is not None else {}
     reqs = [(k.name, mode, k.okl, "") for k in kernels for mode in modes]
@@ -505,6 +511,11 @@ def run_tv(spec, prop, tier, replay, t0):
                 f["desc"] = byname[f["kernel"]].meta
                 state["fail"].append(f)
         campaign()
+        if state["batches"] < nbatches:
+            out.notes.append("only %d of %d batches were generated (Hypothesis discarded the others: entropy budget of one example exceeded)"
+                             % (state["batches"], nbatches))
+        if state["n"] == 0:
+            raise SystemExit("HARNESS-ERROR: no case was generated (batch too large for one Hypothesis example?); not a property verdict")
         out.evaluations = state["n"]
         out.nontrivial = state["nt"]
         out.excluded = state["excluded"]
